@@ -749,7 +749,12 @@ func (p *Prepared) Exec() {
 			leak = 1
 		}
 	}
-	p.In = sx.L{sx.I(int64(s.Cfg.Encrypt)), s.Cfg.Tree(), p.RT, sx.I(int64(KeyCap(s.Pem))), sx.B(symkey), capOrder(res.Msgs)}
+	noplain := 0
+	if s.Key == nil {
+		noplain = 1 // no private key for this script (mutated / foreign key material): plaintexts are not reported
+		ptt = sx.L{}
+	}
+	p.In = sx.L{sx.I(int64(s.Cfg.Encrypt)), s.Cfg.Tree(), p.RT, sx.I(int64(KeyCap(s.Pem))), sx.B(symkey), capOrder(res.Msgs), sx.I(int64(noplain))}
 	p.Out = sx.L{sx.I(int64(res.Class)), res.Caps, sx.I(int64(res.PackSize)), mt, ptt, sx.I(int64(leak)), sx.I(int64(keyfresh))}
 }
 
